@@ -17,7 +17,7 @@ RULE = ("Hypothesis DocSpecs (all 36 style properties in every accepted unit on 
         "shape predicate. evaluations = snapshots checked; non-trivial = snapshot with >= 1 region holding content and >= 1 length that "
         "needed unit resolution (a %, em, c or px length specified or animated on a presented element); distinct by (document hash, t).")
 ASSUMPTIONS = [
-  "white-space expectations are the four rules of DESIGN 2.3 (vt/ref_lwsp.py); text under ruby delimiters (rp) is not asserted",
+  "white-space expectations are the four rules of DESIGN 2.3 (vt/ref_lwsp.py); each rt and each rp is a white-space context of its own",
   "rb / rbc may survive without children (ttconv design, accepted)",
 ]
 
@@ -149,7 +149,7 @@ def check_lwsp(sn, g, res):
   gkinds = {eid: obs.kind_of(e) for eid, e in g.elements.items()}
   out = ref_lwsp.split_contexts([(k, x, chain(c), None) for (k, x, c) in g.leaves], gkinds)
   for ctx, leaves in src.items():
-    if ctx is None or ctx[0] == "rp":
+    if ctx is None:
       continue
     got = out.get(ctx, [])
     if not got:
